@@ -23,12 +23,12 @@ def plan(tier, seed):
         shards=16,
         rule='descriptions drawn from the generators of C01/C02/C03/C05/C06/C10 (core shapes, operator tables, '
              'bounds and Sep, bindings, templates, classes with ignore) and every repository description '
-             '(tests, docs, README, examples); each compiled as 6 in-memory variants (unnamed/named x '
-             'include_source off/on, plus a second compilation of each naming) and its emitted source run '
+             '(tests, docs, README, examples); each compiled as 7 in-memory variants (unnamed/named x '
+             'include_source off/on, a second compilation under a fresh name and under the same name) and its emitted source run '
              'in an interpreter started with -I -S (2 variants: unnamed, named); inputs from the owning '
              'generator (model-guided) or, for repository descriptions, the string constants of the same '
              'file.  One evaluation = one (variant, call).  Non-trivial = distinct (description, call) '
-             'compared across >= 6 variants.',
+             'compared across >= 7 variants.',
         assumptions=['variants are compared on value / error class / error index',
                      'the isolated interpreter has no site-packages and no /repo on its path (reported flags '
                      'are checked)'],
@@ -53,8 +53,10 @@ def variants(rec, desc, has_header=False):
     n1, n2 = diff.unique_name('vt_c11'), diff.unique_name('vt_c11')
     plan_ = [('unnamed', desc, False), ('unnamed+src', desc, True), ('unnamed-again', desc, False)]
     if not has_header:
+        # 'named+src' re-uses the name of 'named' (the same name compiled twice), 'named-again' is a
+        # fresh name, 'named-same-again' compiles the first name a third time
         plan_ += [('named', with_name(desc, n1), False), ('named+src', with_name(desc, n1), True),
-                  ('named-again', with_name(desc, n2), False)]
+                  ('named-again', with_name(desc, n2), False), ('named-same-again', with_name(desc, n1), False)]
     for vname, d, inc in plan_:
         r = observe.compile_grammar(d, include_source=inc)
         out[vname] = r[1] if r[0] == 'ok' else ('fail', r)
@@ -169,7 +171,7 @@ def compare_variants(rec, batch, desc, calls, tag, chain=None, has_header=False,
                 c = dict(case)
                 c.update(entry=entry, text_repr=repr(text), pos=pos, fullparse=fp)
                 rec.violation('variant-differs:%s' % vname, 'N-version comparison', c, (o0, i0), (o, i))
-        if nvar >= 6 or (has_header and nvar >= 3):
+        if nvar >= 7 or (has_header and nvar >= 3):
             rec.nontrivial((desc, entry, text, pos, fp))
     for vname, (mname, src) in srcs.items():
         batch.add(vname, [[mname if mname != 'grammar' else 'vt_iso_grammar', src]], calls, expected,
